@@ -1,12 +1,17 @@
 package rpc
 
 import (
+	"sync"
+
 	"github.com/projecteru2/core/log"
 	"github.com/projecteru2/core/types"
 	"github.com/projecteru2/core/utils"
 
 	"golang.org/x/net/context"
 )
+
+// taskNumMux guards Vibranium.TaskNum, which every RPC goroutine updates
+var taskNumMux sync.Mutex
 
 type task struct {
 	v       *Vibranium
@@ -32,7 +37,9 @@ func (v *Vibranium) newTask(ctx context.Context, name string, verbose bool) *tas
 		log.WithFunc("vibranium.newTask").WithField("name", name).Debug(ctx, "task added")
 	}
 	v.counter.Add(1)
+	taskNumMux.Lock()
 	v.TaskNum++
+	taskNumMux.Unlock()
 	return &task{
 		v:       v,
 		name:    name,
@@ -49,7 +56,9 @@ func (t *task) done() {
 		log.WithFunc("vibranium.done").WithField("name", t.name).Debug(t.context, "task done")
 	}
 	t.v.counter.Done()
+	taskNumMux.Lock()
 	t.v.TaskNum--
+	taskNumMux.Unlock()
 }
 
 // Wait for all tasks done
